@@ -283,6 +283,41 @@ func constBytes(sv SliceV) (string, bool) {
 	return string(b), true
 }
 
+// storeByte is b[i] = v for an opaque []byte whose backing array is known: every live slice of
+// the array that shows the same bytes shows the changed bytes afterwards (exact in the string
+// domain; an unconstrained value on a weak path in the algebra domain).
+func (m *Machine) storeByte(bc ByteCell, v *Term) {
+	b := bc.B
+	if b.Buf == nil || !b.AtStart {
+		panic(m.unsupported("single-byte write into an opaque []byte of unknown provenance"))
+	}
+	old := m.current(b)
+	var nt *Term
+	if m.Domain == DomString {
+		ch := mk("str.from_code", SString, intOfBV(BVResize(v, 64, false)))
+		nt = m.strConcat(m.strConcat(m.strSlice(old, nil, bc.I), ch), m.strSlice(old, BVBin("bvadd", bc.I, BVC(64, 1)), nil))
+	} else {
+		m.weak = appendUniq(m.weak, []string{"single-byte write into opaque bytes (the result is an unconstrained value in the algebra domain)"}, 20)
+		nt = m.fresh("clobbered.bytes", old.S)
+		m.assume(Eq(m.strLen(nt), m.strLen(old)))
+	}
+	buf := b.Buf
+	m.walkValues(func(x Value) Value {
+		y, ok := x.(ByteSlice)
+		if !ok || y.Buf != buf || y.Nil {
+			return x
+		}
+		if !y.AtStart || !structEq(y.T, old, 50) {
+			if m.isEmptyLit(y.T) {
+				return x
+			}
+			panic(m.unsupported("single-byte write into a backing array that has slices of another extent"))
+		}
+		y.T = nt
+		return y
+	})
+}
+
 func (m *Machine) isEmptyLit(t *Term) bool {
 	s, ok := m.litValue(t)
 	return ok && s == ""
